@@ -444,6 +444,25 @@ def library_raised(exc) -> bool:
     return any("/pyoma2/" in f.filename for f in frames[last_harness + 1:])
 
 
+def library_raise_site(exc):
+    """'file.py:line' of the innermost pyoma2 frame when the exception was raised below the library (in this process or,
+    for exceptions re-raised by multiprocessing, in a pool worker), else None"""
+    import traceback
+
+    if library_raised(exc):
+        fr = [f for f in traceback.extract_tb(exc.__traceback__) if "/pyoma2/" in f.filename]
+        return f"{os.path.basename(fr[-1].filename)}:{fr[-1].lineno}"
+    cause = getattr(exc, "__cause__", None)
+    tb = getattr(cause, "tb", None)
+    if isinstance(tb, str):
+        frames = re.findall(r'File "([^"]+)", line (\d+)', tb)
+        last_h = max((i for i, (fn, _) in enumerate(frames) if "/verif/harness/" in fn or fn.endswith("/verif/check")), default=-1)
+        lib = [(fn, ln) for fn, ln in frames[last_h + 1:] if "/pyoma2/" in fn]
+        if lib:
+            return f"{os.path.basename(lib[-1][0])}:{lib[-1][1]}"
+    return None
+
+
 def guarded(col, fn, key, what, replay):
     """run one replay case; an exception raised inside the library is a violation, one raised by the harness propagates"""
     try:
